@@ -268,9 +268,14 @@ def run (c : Cfg) (fs : List (Nat × Nat)) : Out :=
   if o.refused then o else
   { o with panicked := if c.v then panics markValidator pinnedStreamCfg c fs else panics passThrough pinnedStreamCfg c fs }
 
+def fnv (bs : Bytes) : UInt64 := bs.foldl (fun h b => (h ^^^ b.toUInt64) * 0x100000001b3) 0xcbf29ce484222325
+
+/-- digest of the bytes handed to one destination operation (low 32 bits of FNV-1a 64), as the harness logs it -/
+def opDig (p : Bytes) : String := hexN 8 ((fnv p).toNat % 4294967296)
+
 def showOp : DOp → String
-  | .write p t ok => s!"w{p.length}:{t}" ++ (if ok then "" else "!")
-  | .writeAt p off t ok => s!"a{p.length}@{off}:{t}" ++ (if ok then "" else "!")
+  | .write p t ok => s!"w{p.length}#{opDig p}:{t}" ++ (if ok then "" else "!")
+  | .writeAt p off t ok => s!"a{p.length}#{opDig p}@{off}:{t}" ++ (if ok then "" else "!")
   | .seek dlt ok => s!"s{dlt}" ++ (if ok then "" else "!")
 
 def joinOr (xs : List String) : String := if xs.isEmpty then "-" else ",".intercalate xs
@@ -290,8 +295,6 @@ def execWr (args : List String) : String :=
     -- O_APPEND: the same operations land elsewhere (Dest.runAppend)
     let o := if c.ap then { o with d := { o.d with content := (({ content := c.pre, pos := c.pos } : Dest).runAppend o.d.log.reverse).content } } else o
     if o.refused then "refused" else if o.panicked then "panic" else showRun o
-
-def fnv (bs : Bytes) : UInt64 := bs.foldl (fun h b => (h ^^^ b.toUInt64) * 0x100000001b3) 0xcbf29ce484222325
 
 def opLen : DOp → Nat
   | .write p _ _ => p.length
